@@ -22,6 +22,9 @@ struct Case {
     /// it plus the following requests)
     b: u32,
     pregrown: bool,
+    /// header shape of the oversized request: 0 = 3-byte key; 1 = 251-byte key; 2 = 21 extras bytes
+    /// announced; 3 = 65535-byte key (all consistent with the announced body length)
+    shape: u8,
 }
 
 impl Case {
@@ -41,13 +44,14 @@ impl Case {
     }
     fn name(&self) -> String {
         format!(
-            "limit={} L={} op={} pos={} B={} pregrown={}",
+            "limit={} L={} op={} pos={} B={} pregrown={}{}",
             self.limit,
             self.body_len,
             wire::op_name(self.opcode),
             ["first", "middle", "last"][self.position as usize],
             if self.b == u32::MAX { "all+next".to_string() } else { self.b.to_string() },
-            self.pregrown
+            self.pregrown,
+            ["", " key=251B", " extras=21B", " key=65535B"][self.shape as usize]
         )
     }
 }
@@ -59,6 +63,12 @@ fn oversized_req(c: &Case) -> Req {
     match c.opcode {
         op::SET | op::ADD | op::REPLACE | op::SETQ | op::ADDQ | op::REPLACEQ => r.extras = vec![0, 0, 0, 1, 0, 0, 0, 0],
         op::INCR | op::DECR | op::INCRQ | op::DECRQ => r.extras = vec![0u8; 20],
+        _ => {}
+    }
+    match c.shape {
+        1 => r.key = vec![b'K'; 251],
+        2 => r.extras = vec![0u8; 21],
+        3 if c.body_len as usize > 65535 + r.extras.len() => r.key = vec![b'K'; 65535],
         _ => {}
     }
     let fixed = r.extras.len() + r.key.len();
@@ -251,7 +261,17 @@ pub fn check(tier: Tier, threads: usize) -> CheckOutcome {
                                 continue;
                             }
 
-                            cases.push(Case { limit, body_len: l, opcode: opc, position, b, pregrown });
+                            cases.push(Case { limit, body_len: l, opcode: opc, position, b, pregrown, shape: 0 });
+                        }
+                    }
+                }
+            }
+            // unusual but consistent key / extras lengths in the oversized header: the size decides
+            for shape in 1..=3u8 {
+                for &opc in few_ops.iter() {
+                    for position in 0..3u8 {
+                        for (b, pregrown) in [(0u32, false), (1, false), (l, true), (u32::MAX, true)] {
+                            cases.push(Case { limit, body_len: l, opcode: opc, position, b, pregrown, shape });
                         }
                     }
                 }
@@ -262,7 +282,7 @@ pub fn check(tier: Tier, threads: usize) -> CheckOutcome {
             for &opc in &store_ops {
                 for position in [0u8, 1] {
                     for b in [0u32, l / 2, u32::MAX] {
-                        cases.push(Case { limit, body_len: l, opcode: opc, position, b, pregrown: false });
+                        cases.push(Case { limit, body_len: l, opcode: opc, position, b, pregrown: false, shape: 0 });
                     }
                 }
             }
@@ -284,7 +304,7 @@ pub fn check(tier: Tier, threads: usize) -> CheckOutcome {
                     found.entry(sig.clone()).or_insert(Violation {
                         signature: sig.clone(),
                         what: what.clone(),
-                        replay: json!({"engine": "c13", "case": c.name(), "limit": c.limit, "body_len": c.body_len, "opcode": c.opcode, "position": c.position, "b": c.b, "pregrown": c.pregrown}),
+                        replay: json!({"engine": "c13", "case": c.name(), "limit": c.limit, "body_len": c.body_len, "opcode": c.opcode, "position": c.position, "b": c.b, "pregrown": c.pregrown, "shape": c.shape}),
                     });
                 }
             }
@@ -305,7 +325,7 @@ pub fn check(tier: Tier, threads: usize) -> CheckOutcome {
             "limits": limits,
             "samples": samples,
             "exhaustive": true,
-            "rule": "full grid: item limit x body length {limit-1, limit, limit+1, 2*limit, limit+200000} x every opcode x position {first, middle, last} x bytes of the oversized body arriving with its header {0,1,L/2-1,L/2,L/2+1,L-1,L,all+following requests} x receive buffer pre-grown or not, on real loopback TCP against the real server; each scenario is compared with an in-process run of the same stream without the oversized request",
+            "rule": "full grid: item limit x body length {limit-1, limit, limit+1, 2*limit, limit+200000} x every opcode x position {first, middle, last} x header shape {3-byte key, 251-byte key, 21 extras bytes, 65535-byte key} x bytes of the oversized body arriving with its header {0,1,L/2-1,L/2,L/2+1,L-1,L,all+following requests} x receive buffer pre-grown or not, on real loopback TCP against the real server; each scenario is compared with an in-process run of the same stream without the oversized request",
         }),
         assumptions: vec![
             "the server's first read takes at most its buffer's spare capacity (4096 bytes unless grown by an earlier large request): combinations that cannot occur are skipped".into(),
@@ -325,6 +345,7 @@ pub fn replay(v: &serde_json::Value) -> Result<Option<String>, String> {
         position: v["position"].as_u64().unwrap_or(0) as u8,
         b: v["b"].as_u64().unwrap_or(0) as u32,
         pregrown: v["pregrown"].as_bool().unwrap_or(false),
+        shape: v["shape"].as_u64().unwrap_or(0) as u8,
     };
     let a = run_case(&c)?.viol;
     let b = run_case(&c)?.viol;
